@@ -1,4 +1,4 @@
-import SoxrModel.Config.Model
+import SoxrModel.Config.Planner
 /-!
 Line-protocol driver of the Config model (`soxr_config < ops`): one op per line in, one canonical line out.
 `harness/config/probe.c` executes the same ops on the real library and prints the same lines.
@@ -125,6 +125,23 @@ def step (st : Option Api) (line : String) : Option Api × Option String :=
       | none => decide (8 ≤ it ||| ot)
     (st, some (if bad then "IO e=1 itype=0 otype=0" else s!"IO e=0 itype={it} otype={ot}"))
   | ["atoi", v] => (st, some s!"A {atoi (String.ofList (unhex (v.toList.drop 1)))}")
+  | "planner" :: rest =>
+    -- the rate decomposition of the stage planner for an accepted configuration; gain / interp / odd: oracle parameters
+    let m := kvs rest
+    let c := parseConfig m
+    match validate c with
+    | .error e => (st, some ("PL err " ++ e.msg))
+    | .ok a =>
+      if !a.ready || a.engine == .vr32 then (st, some "PL none")
+      else
+        let k := knobsOf a.q a.rt a.engine a.ioRatio
+        let p0 := planRates a.ioRatio k (getNat m "gain" 0 == 1)
+        let p := finishArb p0 (getNat m "interp" 0) (getNat m "odd" 0 == 1)
+        let hi := hasFlag a.q.flags Gen.flagHiPrecClock
+        (st, some (s!"PL {stageLine p hi}| n={p0.numStages} shr={p0.shr} preL={p0.preL} preM={p0.preM} arbL={p0.arbL} arbM={toBits p0.arbM} " ++
+          s!"postL={p0.postL} postM={p0.postM} rational={b2s p0.rational} upsample={b2s p0.upsample} mode={p0.mode} " ++
+          s!"maxL={maxLOf k p0.mode} finished={b2s p0.finished} faithful={b2s p0.faithful} " ++
+          s!"prod32={b2s (p0.cubic || p0.productNear a.ioRatio false)} prodexact={b2s (p0.productNear a.ioRatio true)}"))
   | "create" :: rest =>
     let c := parseConfig (kvs rest)
     match validate c with
